@@ -401,3 +401,5 @@ def run(F, S, R, tier):
         if not found:
             R.bad("cmp/expiry/anchor-lost", "expiry comparison not found", [rex.where()])
     R.guard("cmp/limits", limits)
+    import common as _common
+    _common.effects(R, F, ['pool'])
